@@ -81,10 +81,12 @@ func (socket *ftpActiveSocket) Port() int {
 }
 
 func (socket *ftpActiveSocket) Read(p []byte) (n int, err error) {
+	socket.conn.SetDeadline(time.Now().Add(dataIdleTimeout))
 	return socket.conn.Read(p)
 }
 
 func (socket *ftpActiveSocket) Write(p []byte) (n int, err error) {
+	socket.conn.SetDeadline(time.Now().Add(dataIdleTimeout))
 	return socket.conn.Write(p)
 }
 
@@ -94,6 +96,10 @@ func (socket *ftpActiveSocket) Close() error {
 
 // how long a passive socket waits for the client to open the data connection
 const passiveAcceptTimeout = 30 * time.Second
+
+// how long a transfer waits for the peer of an open data connection: a client that opens the
+// data connection and then neither sends nor reads must not hold the session's handler forever
+const dataIdleTimeout = 30 * time.Second
 
 type ftpPassiveSocket struct {
 	conn      net.Conn
@@ -133,6 +139,7 @@ func (socket *ftpPassiveSocket) Read(p []byte) (n int, err error) {
 	if err := socket.waitForOpenSocket(); err != nil {
 		return 0, err
 	}
+	socket.conn.SetDeadline(time.Now().Add(dataIdleTimeout))
 	return socket.conn.Read(p)
 }
 
@@ -140,6 +147,7 @@ func (socket *ftpPassiveSocket) Write(p []byte) (n int, err error) {
 	if err := socket.waitForOpenSocket(); err != nil {
 		return 0, err
 	}
+	socket.conn.SetDeadline(time.Now().Add(dataIdleTimeout))
 	return socket.conn.Write(p)
 }
 
